@@ -1,6 +1,7 @@
 package replayers
 
 import (
+	"math"
 	"testing"
 	"time"
 
@@ -74,6 +75,9 @@ func (s *shadow) stored() {
 
 func (c Case) gcInterval() time.Duration {
 	if c.GCInterval < 0 {
+		if c.TTL < 0 {
+			return time.Duration(math.MaxInt64) / 4
+		}
 		return time.Duration(c.TTL) * tick / 4
 	}
 	return time.Duration(c.GCInterval) * tick
